@@ -48,6 +48,7 @@ var c21pats = []c21pat{
 	{"s", "r", "w", 2, true},
 	{"s", "r", "*", 1, true},
 	{"s", "*", "*", 0, true},
+	{"s", "*", "w", 1, true},
 	{"s", "q", "*", 1, false},
 	{"t", "*", "*", 0, false},
 }
@@ -89,14 +90,23 @@ func VerifC21Settings(h *verifrt.H) {
 		}
 		cur[k] = r
 	}
-	// expected: most specific registered matching pattern
-	best := -1
+	// expected: a most specific registered matching pattern; with two matching patterns of equal
+	// specificity (s/r/* and s/*/w) either may win, but the choice must not depend on the
+	// registration order, the map iteration order or a restart
+	best, tie := -1, -1
 	for k := range cur {
-		if cur[k] != nil && c21pats[k].match && (best < 0 || c21pats[k].spec > c21pats[best].spec) {
-			best = k
+		if cur[k] == nil || !c21pats[k].match {
+			continue
+		}
+		switch {
+		case best < 0 || c21pats[k].spec > c21pats[best].spec:
+			best, tie = k, -1
+		case c21pats[k].spec == c21pats[best].spec:
+			tie = k
 		}
 	}
 	q := name.New().Sanctuary("s").Realm("r").Swamp("w")
+	winner := -2 // pattern index that won in the first lookup
 	check := func(st Settings, label string) {
 		// natively Go randomises the iteration order per range statement: repeat the lookup
 		reps := 1
@@ -111,16 +121,44 @@ func VerifC21Settings(h *verifrt.H) {
 				h.Assert(got.GetCloseAfterIdle() == 5*time.Second && got.GetSwampType() == setting.PermanentSwamp, label+"-default-when-nothing-matches")
 				continue
 			}
-			w := cur[best]
-			wantType := setting.PermanentSwamp
-			if w.mem {
-				wantType = setting.InMemorySwamp
+			is := func(k int) bool {
+				w := cur[k]
+				wantType := setting.PermanentSwamp
+				if w.mem {
+					wantType = setting.InMemorySwamp
+				}
+				return got.GetCloseAfterIdle() == time.Duration(w.idle)*time.Second && got.GetSwampType() == wantType &&
+					got.GetWriteInterval() == time.Duration(w.write)*time.Second && got.GetPattern().Get() == c21pats[k].s+"/"+c21pats[k].r+"/"+c21pats[k].w
 			}
-			h.Assert(got.GetCloseAfterIdle() == time.Duration(w.idle)*time.Second && got.GetSwampType() == wantType &&
-				got.GetWriteInterval() == time.Duration(w.write)*time.Second, label+"-most-specific-pattern-wins")
+			h.Assert(is(best) || tie >= 0 && is(tie), label+"-most-specific-pattern-wins")
+			now := best
+			if tie >= 0 && is(tie) {
+				now = tie
+			}
+			if winner == -2 {
+				winner = now
+			}
+			h.Assert(now == winner, label+"-same-winner-for-every-order-and-after-restart")
 		}
 	}
 	check(s, "lookup")
+	// the same final set registered in the opposite order must resolve identically
+	sRev := &settings{patterns: map[string]setting.Setting{}, model: &Model{Patterns: map[string]*PatternModel{}}}
+	keep := c21saved
+	for k := len(cur) - 1; k >= 0; k-- {
+		if cur[k] == nil {
+			continue
+		}
+		p := c21pats[k]
+		pn := name.New().Sanctuary(p.s).Realm(p.r).Swamp(p.w)
+		if cur[k].mem {
+			sRev.RegisterPattern(pn, true, cur[k].idle, nil)
+		} else {
+			sRev.RegisterPattern(pn, false, cur[k].idle, &FileSystemSettings{WriteIntervalSec: cur[k].write, MaxFileSizeByte: 100})
+		}
+	}
+	c21saved = keep
+	check(sRev, "reverse-registration")
 	// restart: a fresh settings object loads the persisted model
 	s2 := &settings{patterns: map[string]setting.Setting{}, model: &Model{Patterns: map[string]*PatternModel{}}}
 	h.MapOrderNondet(true)
